@@ -122,7 +122,9 @@ InContract(alg, p, box) ==
        [] alg = "exactly_true" -> n >= 1 /\ Len(p) = 1 /\ BoolBox(box)
        [] alg = "gcc"          -> LET m == GccM(p) IN
                                   /\ n >= 1 /\ m >= 1 /\ Len(p) = 1 + 2 * m
-                                  /\ \A j \in 0..(m - 1) : 0 <= p[2 + j] /\ p[2 + j] <= p[2 + m + j]
+                                  \* the documentation puts no relation between a lower bound and a capacity:
+                                  \* l_j > u_j is an (unsatisfiable) in-contract parametrisation
+                                  /\ \A j \in 0..(m - 1) : 0 <= p[2 + j] /\ 0 <= p[2 + m + j]
                                   /\ \A k \in 1..n : p[1] <= box[k][1] /\ box[k][2] <= p[1] + m - 1
        [] alg = "lexicographic_leq" -> n >= 2 /\ n % 2 = 0
        [] alg \in {"max_eq", "max_leq", "min_eq", "min_geq"} -> n >= 2
